@@ -96,7 +96,7 @@ def BConv.apply (fenv : FEnv) : BConv → Str → ConvOut
     | none => .typeErr
   | .path, s => parsePath s
   | .noop, s => .ok (.str s)
-  | .enumName cls members, s => if members.contains s then .ok (.enum cls s) else .raise "KeyError".toList
+  | .enumName cls members, s => if members.contains s then .ok (.enum cls s) else .typeErr   -- ValueError (after the D2 repair; was KeyError)
 
 /-- `try_functions`: first success; every exception of a member is swallowed; none ⇒ ValueError -/
 def unionApply (fenv : FEnv) : List BConv → Str → ConvOut
